@@ -1,8 +1,8 @@
 CONSTANTS
-  N = 4
+  N = 3
   MaxFan = 3
-  KindSet <- KindsAll
-  GenFans <- Fans02
+  KindSet <- KindsNX
+  GenFans <- Fans01
   Budgets <- BudgetsQ
   MaxDepth = 3
   MaxQ = 32
@@ -12,10 +12,10 @@ CONSTANTS
   ShadowRejects = FALSE
   LeakBudgetFailure = FALSE
   LoopCapOff = FALSE
-  V6Set <- V6Off
+  V6Set <- V6On
   DetachedFresh = FALSE
   Emit = TRUE
 SPECIFICATION Spec
 INVARIANTS TypeOK WithinBudget OverBudgetIsPrivate ShadowEqualsOff EnforceIsPrefix LocalBelowW OneLedgerPerTree
-PROPERTIES MeasureDecreases ReplyIsFinal
+PROPERTIES Terminates MeasureDecreases ReplyIsFinal
 CHECK_DEADLOCK FALSE
